@@ -219,6 +219,19 @@ def rule_prev(R):
     return out, {}
 
 
+# a link written for the block's own atom type of BB (as every link derived from a dangling .itp interaction is), listed after a
+# link that replaces that atom type: link atoms are matched against the residue's block, so the earlier replacement does not hide it
+L_TYPED = '[ link ]\nresname "A|B"\n[ atoms ]\nBB {"atype": "TA"}\nSC {}\n+BB {}\n[ angles ]\nSC BB +BB 1 123 53\n'
+
+
+def rule_typed(R):
+    out = set()
+    for u, v in itertools.permutations(range(R["n"]), 2):
+        if plain_edge(R, u, v) and R["rank"][v] == R["rank"][u] + 1 and R["names"][u] == "A" and R["names"][v] in "AB":
+            out.add(("angles", ((R["rank"][u], "SC"), (R["rank"][u], "BB"), (R["rank"][v], "BB")), ("1", "123", "53")))
+    return out, {}
+
+
 def rule_union(*rules):
     def rule(R):
         inter, repl = set(), {}
@@ -250,12 +263,14 @@ CATALOGUE = {
     "centre with > and >> neighbours": (L_GT_GTGT, rule_gt_gtgt),
     "remove atom at chain start": (L_BOND + L_REMOVE_START, rule_remove(-1)),
     "remove atom at chain end": (L_BOND + L_REMOVE_END, rule_remove(1)),
+    "replace, then a link typed on the replaced attribute": (L_REPL + L_TYPED, rule_union(rule_replace, rule_typed)),
     "same atoms, same version: last wins": (L_OVER1 + L_OVER2, rule_last_wins),
     "same atoms, different version: both": (L_OVER1 + L_OVER2_V2, rule_union(rule_next_bond("AB", ("1", "0.40", "400")), rule_next_bond("AB", ("1", "0.90", "900")))),
 }
 Q_LINKS = ["next bond", "three-residue angle", "later residue (>)", "other residue (*)", "replace", "end cap with non-edge",
            "same atoms, same version: last wins", "pattern", "remove atom at chain start", "remove atom at chain end",
-           "resname on some atoms only", "centre with > and >> neighbours", "labelled (circle) link"]
+           "resname on some atoms only", "centre with > and >> neighbours", "labelled (circle) link",
+           "replace, then a link typed on the replaced attribute"]
 
 
 def observed(meta):
